@@ -432,7 +432,7 @@ class C11(Sim):
             leaf = cfg["leaf"] if r.chance(0.5) else r.randint(1, 12)
         # 'scribble': once the tree is built, the caller re-uses the array it passed as a buffer (overwrites it in place).  The tree was
         # built for the points as they were: its answers are still judged against those
-        ev = {"c": "builder", "op": "build", "t": t, "leaf": leaf, "strategy": strat, "forced": [], "scribble": r.chance(0.3)}
+        ev = {"c": "builder", "op": "build", "t": t, "leaf": leaf, "strategy": strat, "forced": [], "scribble": r.chance(0.3), "upper": r.chance(0.15)}
         if cfg["faults_on"] and strat != "balanced" and cfg["max_forced"] > 0 and r.chance(0.8):
             k = r.randint(1, cfg["max_forced"])
             if r.chance(0.45):  # a run of the same extreme on consecutive draws from the root: the nastiest prefix
@@ -616,7 +616,7 @@ class C11(Sim):
         try:
             try:
                 with _budget.StepBudget(limit) as b:
-                    out = call(self.KDTree, pts, max_leaf_size=leaf, strategy=strat)
+                    out = call(self.KDTree, pts, max_leaf_size=leaf, strategy=(strat.upper() if ev.get("upper") else strat))  # names are case-insensitive
             finally:
                 np.random.choice = draws.real
                 self._account_draws(draws, consumers_before)
